@@ -1093,7 +1093,7 @@ class Oracles:
 
     def cannot_finish(self, pm: PoolM) -> bool:
         """Pending work of this pool can legitimately never complete: a pool of size 0 starts nothing."""
-        return pm.size == 0 and any(self.req_active(r) or (r.spawner is not None and not r.spawner.done()) for r in pm.reqs)  # type: ignore[attr-defined]
+        return (pm.size == 0 or pm.size_dirty) and any(self.req_active(r) or (r.spawner is not None and not r.spawner.done()) for r in pm.reqs)  # type: ignore[attr-defined]
 
     def cb_specs(self, pm: PoolM, tm: TaskM):
         if pm.spec["cls"] == "SimpleTaskPool":
@@ -1138,10 +1138,10 @@ class Oracles:
         C = {"C04"} if rm.kind in ("apply", "start") else {"C05"}
         if getattr(pm, "close_failed", False):
             return
-        if pm.size == 0 and not pm.size_assigned:
-            if any(c.task is not None for c in rm.calls):
+        if pm.size == 0:
+            if not pm.size_assigned and any(c.task is not None for c in rm.calls):
                 w.fail({"C01"}, "size/task-started-in-size-0-pool", rid)
-            return
+            return      # a pool of size 0 starts nothing: completeness is not owed
         if pm.size_dirty:
             return
         if pm.closing:
